@@ -86,6 +86,11 @@ type mBlock struct {
 	hdr     []tok // lead comments + header while the header was never touched
 	parent  *mBody
 	oneLine bool
+	// real is the writer's object for this block in the current tree, once
+	// the simulated application has seen it (from Blocks(), or as the value an
+	// append returned); nil after a reload.  An application that keeps its
+	// block objects does not ask Blocks() again before every edit.
+	real *hclwrite.Block
 }
 
 func (b *mBody) attr(name string) (*mAttr, int) {
@@ -187,6 +192,47 @@ func (s *sim) call(what string, f func()) {
 func (s *sim) probe(n string) { s.res.Probes[n]++ }
 
 // resolve finds the target body of an op in both the tree and the model.
+// blocksOf returns the writer's blocks of body tb in the order of the model's
+// blocks.  Normally it asks Blocks(); in a history with lazy checks the
+// application uses the objects it already holds when it holds all of them.
+func (s *sim) blocksOf(tb *hclwrite.Body, mb *mBody) []*hclwrite.Block {
+	mbl := mb.blocks()
+	if s.h.Lazy > 0 {
+		all := true
+		for _, m := range mbl {
+			if m.real == nil {
+				all = false
+			}
+		}
+		if all {
+			out := make([]*hclwrite.Block, len(mbl))
+			for i, m := range mbl {
+				out[i] = m.real
+			}
+			s.probe("edit_without_asking_blocks")
+			return out
+		}
+	}
+	var tbl []*hclwrite.Block
+	s.call("Body.Blocks", func() { tbl = tb.Blocks() })
+	if len(tbl) != len(mbl) {
+		fail("accessor_mismatch", "Blocks() returned %d blocks, model has %d", len(tbl), len(mbl))
+	}
+	for i, m := range mbl {
+		m.real = tbl[i]
+	}
+	return tbl
+}
+
+func forgetReal(mb *mBody) {
+	for _, it := range mb.items {
+		if it.block != nil {
+			it.block.real = nil
+			forgetReal(it.block.body)
+		}
+	}
+}
+
 func (s *sim) resolve(op *OpM) (*hclwrite.Body, *mBody, bool) {
 	if op.Via == "handle" {
 		if len(s.handles) == 0 {
@@ -208,11 +254,7 @@ func (s *sim) resolve(op *OpM) (*hclwrite.Body, *mBody, bool) {
 		if len(mbl) == 0 {
 			break
 		}
-		var tbl []*hclwrite.Block
-		s.call("Body.Blocks", func() { tbl = tb.Blocks() })
-		if len(tbl) != len(mbl) {
-			fail("accessor_mismatch", "Blocks() returned %d blocks, model has %d", len(tbl), len(mbl))
-		}
+		tbl := s.blocksOf(tb, mb)
 		i := p % len(mbl)
 		mb = mbl[i].body
 		s.call("Block.Body", func() { tb = tbl[i].Body() })
@@ -398,14 +440,14 @@ func (s *sim) applyBodyOp(op *OpM, tb *hclwrite.Body, mb *mBody) {
 		var blk *hclwrite.Block
 		s.call("AppendNewBlock", func() { blk = tb.AppendNewBlock(op.Type, op.Labels) })
 		mb.reflow()
-		m := &mBlock{typ: op.Type, labels: nfcAll(op.Labels), body: &mBody{}, parent: mb}
+		m := &mBlock{typ: op.Type, labels: nfcAll(op.Labels), body: &mBody{}, parent: mb, real: blk}
 		mb.items = append(mb.items, &mItem{block: m})
 		s.handles = append(s.handles, handle{blk, m})
 		s.res.Effective++
 	case "append_fresh_block":
 		var blk *hclwrite.Block
 		s.call("NewBlock", func() { blk = hclwrite.NewBlock(op.Type, op.Labels) })
-		m := &mBlock{typ: op.Type, labels: nfcAll(op.Labels), body: &mBody{}}
+		m := &mBlock{typ: op.Type, labels: nfcAll(op.Labels), body: &mBody{}, real: blk}
 		for i := range op.Pre {
 			var bb *hclwrite.Body
 			s.call("Block.Body", func() { bb = blk.Body() })
@@ -433,6 +475,7 @@ func (s *sim) applyBodyOp(op *OpM, tb *hclwrite.Body, mb *mBody) {
 		s.call("AppendBlock", func() { tb.AppendBlock(h.blk) })
 		mb.reflow()
 		h.m.parent = mb
+		h.m.real = h.blk
 		mb.items = append(mb.items, &mItem{block: h.m})
 		s.res.Effective++
 		s.probe("reattach_removed_block")
@@ -453,11 +496,7 @@ func (s *sim) applyBodyOp(op *OpM, tb *hclwrite.Body, mb *mBody) {
 			}
 			return
 		}
-		var tbl []*hclwrite.Block
-		s.call("Body.Blocks", func() { tbl = tb.Blocks() })
-		if len(tbl) != len(mbl) {
-			fail("accessor_mismatch", "Blocks() returned %d blocks, model has %d", len(tbl), len(mbl))
-		}
+		tbl := s.blocksOf(tb, mb)
 		i := op.Idx % len(mbl)
 		var ok bool
 		s.call("RemoveBlock", func() { ok = tb.RemoveBlock(tbl[i]) })
@@ -490,11 +529,7 @@ func (s *sim) applyBodyOp(op *OpM, tb *hclwrite.Body, mb *mBody) {
 		if len(mbl) == 0 {
 			return
 		}
-		var tbl []*hclwrite.Block
-		s.call("Body.Blocks", func() { tbl = tb.Blocks() })
-		if len(tbl) != len(mbl) {
-			fail("accessor_mismatch", "Blocks() returned %d blocks, model has %d", len(tbl), len(mbl))
-		}
+		tbl := s.blocksOf(tb, mb)
 		i := op.Idx % len(mbl)
 		switch op.Kind {
 		case "set_type":
@@ -612,6 +647,27 @@ func (s *sim) checkAccessors(tb *hclwrite.Body, mb *mBody, path string) {
 				fail("accessor_mismatch", "%s: attribute %q is no longer the object it was (a handle obtained earlier is stale although the attribute was only edited in place)", path, a.name)
 			}
 		}
+		// The token list BuildTokens(nil) hands back is the caller's: two
+		// calls return equal lists, and the application reuses the slice
+		// (here: clears it) without that reaching the tree.
+		var bt1, bt2 hclwrite.Tokens
+		s.call("Expr.BuildTokens", func() { bt1 = ga.Expr().BuildTokens(nil) })
+		s.call("Expr.BuildTokens", func() { bt2 = ga.Expr().BuildTokens(nil) })
+		if len(bt1) != len(bt2) {
+			fail("accessor_mismatch", "%s: attribute %q: two BuildTokens(nil) calls return %d and %d tokens", path, a.name, len(bt1), len(bt2))
+		}
+		for k := range bt1 {
+			if bt1[k] == nil || bt2[k] == nil || bt1[k].Type != bt2[k].Type || !bytes.Equal(bt1[k].Bytes, bt2[k].Bytes) {
+				fail("accessor_mismatch", "%s: attribute %q: two BuildTokens(nil) calls disagree at token %d", path, a.name, k)
+			}
+		}
+		bt1 = append(bt1, &hclwrite.Token{Type: hclsyntax.TokenIdent, Bytes: []byte("callers_own")})
+		for k := range bt1 {
+			bt1[k] = nil
+		}
+		if len(bt2) > 1 {
+			bt2[0], bt2[len(bt2)-1] = bt2[len(bt2)-1], bt2[0]
+		}
 		if a.nvars >= 0 {
 			var n int
 			s.call("Expr.Variables", func() { n = len(ga.Expr().Variables()) })
@@ -632,6 +688,7 @@ func (s *sim) checkAccessors(tb *hclwrite.Body, mb *mBody, path string) {
 		fail("accessor_mismatch", "%s: Blocks() returned %d blocks, model has %d", path, len(tbl), len(mbl))
 	}
 	for i, m := range mbl {
+		m.real = tbl[i]
 		var ty string
 		var labels []string
 		s.call("Block.Type", func() { ty = tbl[i].Type() })
@@ -938,6 +995,7 @@ func (s *sim) saveReload() {
 		fail("reload_failed", "the saved file does not load: %s", dumpDiags(diags))
 	}
 	s.file = nf
+	forgetReal(s.root) // a reloaded tree has new objects
 	s.res.Fired["save_reload"]++
 	// Loading re-partitions the tokens: a free-standing comment that now sits
 	// directly above an item has become that item's lead comment and shares
@@ -1094,6 +1152,12 @@ func runHistory(h *History) (res *Result) {
 				continue
 			}
 			s.applyBodyOp(op, tb, mb)
+		}
+		if h.Lazy > 0 && (i+1)%h.Lazy != 0 && op.Kind != "save_reload" {
+			// an application that edits for a while without reading anything
+			// back: accessors are compared every Lazy-th operation only
+			s.probe("op_without_readback")
+			continue
 		}
 		s.call("File.Body", func() { tb = s.file.Body() })
 		s.checkAccessors(tb, s.root, "")
